@@ -5,4 +5,4 @@ CONSTANTS
   StrLen = 3
 INIT Init
 NEXT Next
-INVARIANTS C05Laws C06Laws C04nLaws C04sLaws C07Laws Emit
+INVARIANTS C05Laws C06Laws C04nLaws C04sLaws C04vLaws C07Laws Emit
